@@ -84,7 +84,7 @@ def transform_identity_returns_same_object(c, n):
 from contracts.c05 import mkpath  # noqa: E402
 
 PATH_SHAPES = [{'kinds': k} for k in ['L', 'LQ', 'CL', 'QLC']]
-OPS = ['translated', 'rotated', 'scaled', 'scaled_uniform', 'transform']
+OPS = ['translated', 'rotated', 'rotated_default_origin', 'scaled', 'scaled_uniform', 'transform']
 
 
 @contract('C10', 'path.transform_segments_together',
@@ -101,6 +101,24 @@ def path_ops_act_segmentwise_and_keep_joints(c, kinds, op):
         degs, o = c.real('degs'), c.cplx('o')
         co, si = c.cos_sin_deg(degs)
         r = c.callm(path, 'rotated', degs, o)
+        img = lambda w: ops.cx(co, si) * (w - o) + o
+    elif op == 'rotated_default_origin':
+        # no origin given: the WHOLE path turns about its own point(0.5) (docstring of rotate);
+        # Path.point enters through its contract (C05): some point o, asked for at T = 0.5
+        degs, o = c.real('degs'), c.cplx('o')
+        co, si = c.cos_sin_deg(degs)
+        asked = []
+
+        def point_contract(ip, f, args, kwargs):
+            asked.append((args[0], args[1]))
+            return o
+        if c.mode == 'sym':
+            c.ip.summaries['path.Path.point'] = point_contract
+        else:
+            o = path.point(0.5)
+        r = c.callm(path, 'rotated', degs)
+        if c.mode == 'sym':
+            c.ensures('default-origin-is-asked-of-the-path-at-0.5', len(asked) >= 1 and all(a is path and c.py_eq(T, c.const('0.5')) is True for a, T in asked))
         img = lambda w: ops.cx(co, si) * (w - o) + o
     elif op in ('scaled', 'scaled_uniform'):
         sx, o = c.real('sx'), c.cplx('o')
